@@ -4,6 +4,14 @@
 #ifndef VERIF_ALLOC_H
 #define VERIF_ALLOC_H
 #include "libc_models.h"
+#ifdef VERIF_NATIVE
+/* native replay: plain libc allocator, failures replayed from the counterexample */
+void *ares_malloc(size_t n) { if (n == 0) return NULL; if (nondet_bool()) return NULL; return malloc(n); }
+void ares_free(void *p) { free(p); }
+void *ares_malloc_zero(size_t n) { void *p = ares_malloc(n); if (p) memset(p, 0, n); return p; }
+void *ares_realloc(void *p, size_t n) { if (nondet_bool()) return NULL; return realloc(p, n); }
+void *ares_realloc_zero(void *p, size_t o, size_t n) { if (nondet_bool()) return NULL; void *q = realloc(p, n); if (q && n > o) memset((char *)q + o, 0, n - o); return q; }
+#else
 void *ares_malloc(size_t n)
 {
   if (n == 0) return NULL;
@@ -36,7 +44,16 @@ void *ares_realloc_zero(void *ptr, size_t orig_size, size_t new_size)
   if (ptr != NULL) free(ptr);
   return q;
 }
-void *ares_realloc(void *p, size_t n) { return realloc(p, n); }
+void *ares_realloc(void *p, size_t n)
+{
+  if (nondet_bool()) return NULL;
+  unsigned char *q = malloc(n);
+  __CPROVER_assume(q != NULL);
+  size_t o = p != NULL ? __CPROVER_OBJECT_SIZE(p) : 0;
+  for (size_t i = 0; i < o; i++) if (i < n) q[i] = ((unsigned char *)p)[i];
+  if (p != NULL) free(p);
+  return q;
+}
 #else
 void *ares_realloc(void *p, size_t n)
 {
@@ -52,4 +69,5 @@ void *ares_realloc_zero(void *ptr, size_t orig_size, size_t new_size)
   return p;
 }
 #endif
+#endif /* VERIF_NATIVE */
 #endif
